@@ -171,7 +171,7 @@ do_sign(const struct pline * l)
 	int bodykind = (int)(l->a[6] < 0 ? -l->a[6] : l->a[6]) % 3;	/* 0 absent 1 empty 2 bytes */
 	size_t bodylen = (size_t)(l->a[7] < 0 ? 0 : l->a[7]) % 102401;
 	uint64_t seed = (uint64_t)l->a[8];
-	int expiry = (int)(l->a[9] % 1000000);
+	int expiry = (l->a[9] % 97 == 0) ? (int)2147483647 : (l->a[9] % 89 == 0) ? -(int)(l->a[9] % 1000) : (int)(l->a[9] % 1000000);
 	int afk = l->nargs > 13 ? (int)l->a[13] : -1;
 	char * key_id = mkstr(unres, idlen, seed + 1, 0), * secret = mkstr(printable, seclen, seed + 2, 0);
 	char * region = mkstr(unres, reglen, seed + 3, 0), * bucket = mkstr(unres, buclen, seed + 4, 0);
